@@ -258,3 +258,21 @@ Theorem C18_conc_refused_join_is_silent :
     (forall u : user, idx (cg (fst r)) u = idx (cg s) u) /\
     (forall ch' : chan, cmap (cg (fst r)) ch' = cmap (cg s) ch').
 Proof. exact conc_refused_join_is_silent. Qed.
+
+
+Theorem C18_conc_leave_announced :
+  forall (cf : ccfg) (es : list ev) (t : tid) (ok : bool) (hint : user) 
+      (c' : conn) (kind : N) (ch : chan) (n : user) (own : bool),
+    let s := cstate_after cf es in
+    let r := cstep cf s (ERun t ok hint) in
+    kind = K_LEFT ->
+    In (OEvent c' kind ch n own) (snd r) ->
+    exists (k : task) (o : oid),
+      In (t, k) (tasks s) /\
+      In n (members (objs (cg s) o)) /\
+      ~ In n (members (objs (cg (fst r)) o)) /\
+      ~ In ch (idx (cg (fst r)) n) /\
+      (forall (u : user) (c'' : conn),
+       In u (members (objs (cg s) o)) ->
+       In c'' (reg (cg s) u) -> t_conn k <> Some c'' -> In (OEvent c'' K_LEFT ch n own) (snd r)).
+Proof. exact conc_leave_announced. Qed.
